@@ -572,9 +572,23 @@ class CallMixin(ExprMixin):
                 return [(st, x)]
             if name == "copy":
                 return [(st, V(ty, recv.t))]
-            if name == "update" and args[0].ty == ty:
-                from .exec_expr import _or_decl
-                wb(V(ty, z3.Map(_or_decl(), recv.t, args[0].t)))
+            if name in ("update", "difference_update") and len(args) == 1 and isinstance(args[0].ty, (Set, Dict, List)):
+                from .exec_expr import _or_decl, _and_decl, _not_decl
+                a = args[0]
+                aty = a.ty
+                ety = aty.elem if isinstance(aty, (Set, List)) else aty.k
+                if ety != ty.elem:
+                    # the argument's members are values of another modelled type: none of them equals a member of
+                    # this set (Python compares e.g. an int node id and a TopicPartition as unequal), so for the
+                    # modelled element type the set does not change
+                    return [(st, NONEV)]
+                if isinstance(aty, List):
+                    raise Unsupported("set.%s(list) (line %s)" % (name, self.cur_line))
+                other = a.t if isinstance(aty, Set) else T.dict_dom(a)
+                if name == "update":
+                    wb(V(ty, z3.Map(_or_decl(), recv.t, other)))
+                else:
+                    wb(V(ty, z3.Map(_and_decl(), recv.t, z3.Map(_not_decl(), other))))
                 return [(st, NONEV)]
         if isinstance(ty, Dict):
             dom, val = T.dict_dom(recv), T.dict_val(recv)
